@@ -88,6 +88,10 @@ class heap(object):
             combination of them); default is PAGE_READ|PAGE_WRITE
         """
         addr = self.next_addr(size)
+        if size == 0 and vm.is_mapped(addr, 1):
+            # The VmMngr only refuses overlapping bytes: an empty chunk must
+            # not share the address of an existing mapping either
+            raise TypeError("known page in memory")
         vm.add_memory_page(
             addr,
             perm,
